@@ -178,6 +178,26 @@ func (g *p2pRig) admissionVerdicts() {
 		if c.verdictPending {
 			c.verdictPending = false
 			refused := c.dead
+			// the expectation was formed when the version message was handed over; if the service itself dropped
+			// a peer of that host (or any peer, for the total limit) in this very step, the slot was free by the
+			// time it decided: recount with what is alive now
+			if !refused && (c.expect == "refuse-per-host" || c.expect == "refuse-total") {
+				liveHost, liveAll := 0, 0
+				for h, l := range g.admitted {
+					for _, x := range l {
+						if x.admittedLive && !x.dead && !x.closed {
+							liveAll++
+							if h == host {
+								liveHost++
+							}
+						}
+					}
+				}
+				if (c.expect == "refuse-per-host" && liveHost < config.MaxPeersPerIP) || (c.expect == "refuse-total" && liveAll < config.MaxPeers) {
+					c.expect = "admit"
+					r.Probe("slot-freed-in-the-same-step")
+				}
+			}
 			switch {
 			case c.expect == "admit" && refused && !c.closed:
 				r.Fail("C18", "admission", "refused-but-model-admits", "%s from host %s was closed by the service right after its version message; model: admitted (live from host %d, bans %v)", c, host, g.liveFrom(host), g.banUntil)
